@@ -6,7 +6,7 @@
     splits the line and converts hexadecimal. *)
 From Coq Require Import Floats.SpecFloat.
 From HP Require Import Base.Bytes Base.Utf8 Base.Num Base.GoFloat Model.Scanner Model.Parser Model.Elements
-  Model.Resolver Model.Dates Model.Tree Model.Writer Model.Reporters Model.Cli.
+  Model.Resolver Model.Dates Model.Tree Model.Writer Model.Reporters Model.Cli Model.Syntax Model.Csv Model.Channel.
 Open Scope N_scope.
 
 Definition kv := list (bytes * bytes).
@@ -194,6 +194,76 @@ Definition do_cli (l : kv) : bytes :=
   | Some c => show_outcome (run B64 (decode_world l) (decode_invocation l c))
   end.
 
+(** *** abstract files (Syntax.v): render, well-formedness, and whether the
+    parser's events on the rendered bytes are the expected ones *)
+Definition strip_plus (k : bytes) : bytes * bool :=
+  match rev k with
+  | c :: r => if c =? 43 then (rev r, true) else (k, false)
+  | [] => (k, false)
+  end.
+
+Definition decode_item (k v : bytes) : option (item * bool) :=
+  let '(kind, crlf) := strip_plus k in
+  let fs := split_on c_lf v in
+  if beq kind (b "blank") then Some (IBlank v, crlf)
+  else if beq kind (b "comment") then Some (IComment v, crlf)
+  else if beq kind (b "heading") then match fs with [n; s] => Some (IHeading n s, crlf) | _ => None end
+  else if beq kind (b "entry") then match fs with [p; n; m; x; q] => Some (IEntry p n m x q, crlf) | _ => None end
+  else if beq kind (b "note") then match fs with [p; r] => Some (INote p r, crlf) | _ => None end
+  else if beq kind (b "badnosep") then match fs with [p; t] => Some (IBadNoSep p t, crlf) | _ => None end
+  else if beq kind (b "badnum") then match fs with [p; n; m; x; q] => Some (IBadNum p n m x q, crlf) | _ => None end
+  else None.
+
+Fixpoint decode_items (l : kv) : list (item * bool) :=
+  match l with
+  | [] => []
+  | (k, v) :: r => match decode_item k v with Some it => it :: decode_items r | None => decode_items r end
+  end.
+
+Definition do_syntax (l : kv) : bytes :=
+  let f := {| f_items := decode_items l; f_final_newline := negb (has "nofinal" l) |} in
+  let data := render f in
+  let got := map show_event (events B64 data) in
+  let want := map show_event (expected_events B64 f) in
+  (if wf_file B64 f then b "wf" else b "notwf") ++ b " "
+  ++ (if beq (join [c_lf] got) (join [c_lf] want) then b "match" else b "differ") ++ b " " ++ hex data
+  ++ b " " ++ hex (join [c_lf] want).
+
+(** *** CSV reader *)
+Definition do_csv_decode (l : kv) : bytes :=
+  match csv_decode (get_or "data" l) with
+  | None => b "error"
+  | Some rows => b "ok" ++ flat_map (fun r => [c_lf] ++ join (b ",") (map hex r)) rows
+  end.
+
+(** *** channel protocol: what each kind of consumer must observe *)
+Definition show_msg (m : msg B64) : bytes :=
+  match m with
+  | MNode n => show_node n
+  | MErr (ChParse e) => b "E " ++ hex (perr_message e)
+  | MErr (ChScan e) => b "E scan:" ++ show_scan_end e
+  | MErr ChIO => b "E io"
+  | MDone => b "D"
+  end.
+
+Definition do_chan (l : kv) : bytes :=
+  let sends :=
+    if has "nofile" l then file_sends B64 None
+    else stream_sends B64 (get_or "data" l) (match get_nat "fault" l with Some k => FailAt k | None => NoFault end) in
+  let p := if beq (get_or "policy" l) (b "stop") then StopAtFirstError else DrainUntilDone in
+  let '(seen, unsent) := run_consumer B64 p sends in
+  join [c_lf] (map show_msg seen
+               ++ match p with
+                  | StopAtFirstError => []
+                  | DrainUntilDone =>
+                      (* after a drain the producer has nothing left to send and exits, unless Done never comes *)
+                      match unsent, rev seen with
+                      | [], MDone :: _ => [b "X exited"]
+                      | [], _ => [b "T timeout"; b "X exited"]   (* ParseFile open error: no Done ever comes *)
+                      | _, _ => [b "X alive"]
+                      end
+                  end).
+
 Definition handle (l : kv) : bytes :=
   match get "op" l with
   | None => b "bad-request"
@@ -201,5 +271,8 @@ Definition handle (l : kv) : bytes :=
       if beq op (b "parse") then do_parse l
       else if beq op (b "resolve") then do_resolve l
       else if beq op (b "cli") then do_cli l
+      else if beq op (b "syntax") then do_syntax l
+      else if beq op (b "csvdecode") then do_csv_decode l
+      else if beq op (b "chan") then do_chan l
       else b "bad-request"
   end.
